@@ -1,4 +1,5 @@
 //! Shared helpers for the verification harness binaries.
+pub mod prog;
 
 /// SplitMix64: every random choice of a run derives from one seed.
 #[derive(Clone, Debug)]
@@ -66,3 +67,14 @@ pub fn jstr(s: &str) -> String {
     o.push('"');
     o
 }
+
+/// Program family, generators and sequential oracle for the `conc` binary.
+pub mod conc_prog;
+/// In-process replay model of salsa's `DependencyGraph` (DESIGN.md Appendix B).
+pub mod dg_model;
+
+/// Threads of the concurrency harness: shuttle's under the `shuttle` feature, `std`'s otherwise.
+#[cfg(feature = "shuttle")]
+pub use shuttle::thread as cthread;
+#[cfg(not(feature = "shuttle"))]
+pub use std::thread as cthread;
